@@ -40,6 +40,9 @@ RULE = ("seeded generator over classes {gaussian with |r| in [0,0.3), [0.3,0.75)
         "strictly between 1e-6 and 1-1e-6, or a uniform corner lies strictly inside the box, or it is a tail / "
         "outside-the-box case by construction; a history is non-trivial when at least two of its calls are; distinct = distinct JSON input")
 TRUSTED_BASE = [
+    "harness/src2coq.py (kernel_regen): its per-evaluation-point reading of the vectorised NumPy of images_kernels.py "
+    "(np.outer / np.sum(axis=1) over the quadrature nodes, masks as conditionals) for the 4 regenerated obligations "
+    "regen_uniform, regen_sbvn_cdf, regen_gauss_legendre_quad, regen_bvn_cdf (proved by Corr/RegenTac.v)",
     "Coq 8.16.1 kernel (vm_compute inside the reflexive checkers of coq-interval; no native_compute)",
     "stdlib axioms of the classical reals: ClassicalDedekindReals.sig_forall_dec, sig_not_dec, "
     "FunctionalExtensionality.functional_extensionality_dep, Classical_Prop.classic",
@@ -61,7 +64,15 @@ ASSUMPTIONS = [
     "independence of a call from earlier calls in the process (no state kept in the module or in argument objects) is "
     "sampled by the call histories, not proved: the Coq model is a pure function of one call's arguments",
 ]
-COQ_DEPS = ["Corr/KernelCorr.vo"]
+COQ_DEPS = ["Corr/KernelCorr.vo", "Corr/RegenTac.vo"]
+
+
+def extra_obligations(tier):
+    """Second tie (DESIGN 12.7): uniform, sbvn_cdf, gauss_legendre_quad and the whole of bvn_cdf are re-translated from the
+    current images_kernels.py (read per evaluation point) and proved equal, as real-valued functions, to Model/KernelM.v;
+    norm_cdf and the dispatch of gaussian() must still be the modelled text."""
+    from .. import src2coq
+    return src2coq.check_regen(PID, "kernels", src2coq.kernel_regen, core.REPO)
 COQ_TIMEOUT = 900
 TOL_G = Fraction(1, 10 ** 9)
 TOL_U = Fraction(1, 10 ** 12)
